@@ -23,7 +23,7 @@ func (ft *ftrans) assignCall(s *ast.AssignStmt, def bool, e *env) {
 	term := ft.callTerm(e, ci)
 	type dst struct {
 		v *gvar
-		j int
+		j int // < 0: scalar
 	}
 	var names []string
 	var dsts []dst
@@ -50,6 +50,7 @@ func (ft *ftrans) assignCall(s *ast.AssignStmt, def bool, e *env) {
 				p.failAt(s, "%s: assignment to %s: unknown variable, redeclaration or type mismatch", ft.sum.key, id.Name)
 			}
 			name = v.name
+			dsts = append(dsts, dst{v, -1})
 		} else {
 			p.failAt(s, "%s: unsupported assignment destination", ft.sum.key)
 		}
@@ -64,7 +65,11 @@ func (ft *ftrans) assignCall(s *ast.AssignStmt, def bool, e *env) {
 	}
 	ft.line(e, letPattern(names)+term+" in")
 	for _, d := range dsts {
-		ft.afterWriteLimb(e, d.v, d.j)
+		if d.j < 0 {
+			ft.noteScalarWrite(e, d.v)
+		} else {
+			ft.afterWriteLimb(e, d.v, d.j)
+		}
 	}
 }
 
@@ -126,12 +131,17 @@ func (ft *ftrans) result(e *env, scalars []string) {
 	}
 	if scalars == nil {
 		for _, v := range ft.named {
+			ft.noteScalarRead(e, v)
 			scalars = append(scalars, v.name)
 		}
 	}
 	parts = append(parts, scalars...)
 	if len(parts) == 0 {
 		ft.p.failAt(ft.fd, "%s: function writes nothing and returns nothing", ft.sum.key)
+	}
+	if ft.fragmented {
+		ft.line(e, "inl "+paren(tupleOf(parts)))
+		return
 	}
 	ft.line(e, tupleOf(parts))
 }
